@@ -58,21 +58,24 @@ Record src := mkS {
   du_wlh : bool; du_armed : bool; du_nd : bool;   (* du_state: wlh bits non-zero / DU_STATE_ARMED / DU_STATE_NEEDS_DELETE *)
   h_ev : bool; h_ca : bool; h_reg : bool;         (* ds_handler[] slots non-NULL *)
   pending : bool;              (* ds_pending_data <> 0 *)
-  kreg : bool                  (* registered with the event system: muxnote linkage + epoll entry / timer heap *)
+  kreg : bool;                 (* registered with the event system: muxnote linkage + epoll entry / timer heap *)
+  karm : bool                  (* that registration is armed: it can deliver an event (epoll: not in dmn_disarmed_events; timer: in
+                                  the heap).  Not the same as DU_STATE_ARMED: _dispatch_unote_resume_muxed re-arms the epoll
+                                  entry but never sets the bit again (found by the global replay, Model/SrcLifeR.v) *)
 }.
 Definition registered (s : src) : bool := du_wlh s || du_armed s || du_nd s.   (* du_state != DU_STATE_UNREGISTERED *)
 Definition needs_rearm_du (s : src) : bool := registered s && negb (du_armed s) && negb (du_nd s).
 
 Definition with_fl (s : src) (f : flags) : src :=
-  mkS f (installed s) (du_wlh s) (du_armed s) (du_nd s) (h_ev s) (h_ca s) (h_reg s) (pending s) (kreg s).
-Definition with_du (s : src) (w a n kr : bool) : src :=
-  mkS (fl s) (installed s) w a n (h_ev s) (h_ca s) (h_reg s) (pending s) kr.
+  mkS f (installed s) (du_wlh s) (du_armed s) (du_nd s) (h_ev s) (h_ca s) (h_reg s) (pending s) (kreg s) (karm s).
+Definition with_du (s : src) (w a n kr ka : bool) : src :=
+  mkS (fl s) (installed s) w a n (h_ev s) (h_ca s) (h_reg s) (pending s) kr ka.
 Definition with_pending (s : src) (p : bool) : src :=
-  mkS (fl s) (installed s) (du_wlh s) (du_armed s) (du_nd s) (h_ev s) (h_ca s) (h_reg s) p (kreg s).
+  mkS (fl s) (installed s) (du_wlh s) (du_armed s) (du_nd s) (h_ev s) (h_ca s) (h_reg s) p (kreg s) (karm s).
 Definition with_installed (s : src) : src :=
-  mkS (fl s) true (du_wlh s) (du_armed s) (du_nd s) (h_ev s) (h_ca s) (h_reg s) (pending s) (kreg s).
+  mkS (fl s) true (du_wlh s) (du_armed s) (du_nd s) (h_ev s) (h_ca s) (h_reg s) (pending s) (kreg s) (karm s).
 Definition with_handlers (s : src) (e c r : bool) : src :=
-  mkS (fl s) (installed s) (du_wlh s) (du_armed s) (du_nd s) e c r (pending s) (kreg s).
+  mkS (fl s) (installed s) (du_wlh s) (du_armed s) (du_nd s) e c r (pending s) (kreg s) (karm s).
 
 Inductive queue := QTarget | QMgr | QOther.
 Definition queue_eqb (a b : queue) : bool :=
@@ -116,7 +119,7 @@ Definition finalize (s : src) : src * list action :=
 Definition refs_unregister (o : orc) (s : src) : src * list action :=
   let ok := negb (registered s) || du_nd s || c_unreg_ok o in
   if ok then
-    let s1 := if registered s then with_du s false false false false else s in
+    let s1 := if registered s then with_du s false false false false false else s in
     let '(s2, a) := finalize s1 in (s2, AUnregister true :: a)
   else
     match m_needs_event_loop (fl s) with
@@ -131,7 +134,8 @@ Definition install (k : kind) (o : orc) (s : src) : src * list action :=
     (* custom filters and muxed registrations come back ARMED; timers only get their wlh bits (they enter the heap when
        armed); direct unotes are the custom data filters on this platform (DISPATCH_HAVE_DIRECT_KNOTES = 0): nothing is
        registered with the kernel for them *)
-    (with_du s1 true (if k_timer k then du_armed s1 else true) false (if k_timer k then kreg s1 else negb (k_direct k)), [AInstall true])
+    (with_du s1 true (if k_timer k then du_armed s1 else true) false (if k_timer k then kreg s1 else negb (k_direct k))
+             (if k_timer k then karm s1 else negb (k_direct k)), [AInstall true])
   else let '(s2, a) := finalize s1 in (s2, AInstall false :: a).
 
 (* _dispatch_source_refs_needs_rearm (source.c:489) *)
@@ -191,7 +195,7 @@ Definition phase (k : kind) (q : queue) (o : orc) (i : ist) : pres :=
           if negb (queue_eqb q (dkq k)) then ret_q (dkq k)
           else (* configure: pending data cleared; an armed timer is re-inserted or dropped from the heap *)
             let s1 := with_pending s false in
-            let s2 := if du_armed s1 then with_du s1 (du_wlh s1) (c_arm o) (du_nd s1) (c_arm o) else s1 in
+            let s2 := if du_armed s1 then with_du s1 (du_wlh s1) (c_arm o) (du_nd s1) (c_arm o) (c_arm o) else s1 in
             cont s2 OA3 i [AConfigure]
         else cont s OA3 i []
       else cont s OA3 i []
@@ -201,7 +205,11 @@ Definition phase (k : kind) (q : queue) (o : orc) (i : ist) : pres :=
         else cont (with_handlers s (h_ev s) (h_ca s) false) OA4 i [ARegCallout (negb (canc_or_rel (fl s)))]
       else cont s OA4 i []
   | OA4 =>
-      if du_nd s then let '(s1, a) := refs_unregister (mkO false false false true false false false false) s in cont s1 OP1 i a
+      if du_nd s then
+        (* a muxed unote is unregistered on the kevent queue only (the event loop may still be delivering the event that asked
+           for the deletion) *)
+        if negb (k_direct k) && negb (k_timer k) && negb (queue_eqb q (dkq k)) then ret_q (dkq k)
+        else let '(s1, a) := refs_unregister (mkO false false false true false false false false) s in cont s1 OP1 i a
       else cont s OP1 i []
   | OP1 =>
       let dqf := fl s in
@@ -246,10 +254,12 @@ Definition phase (k : kind) (q : queue) (o : orc) (i : ist) : pres :=
         if negb (queue_eqb q (dkq k)) then ret_q (dkq k)
         else if c_susp o then Ret s [] RTarget
         else if i_avoid i && c_anon o then Ret s [] RTarget
-        else (* _dispatch_unote_resume: muxed sources are re-armed, timers re-enter the heap if they need to *)
+        else (* _dispatch_unote_resume: a timer re-enters the heap if it needs to (DU_STATE_ARMED set / cleared with it); a muxed
+                unote's epoll entry is re-armed (_dispatch_unote_resume_muxed), its DU_STATE_ARMED bit stays as it is *)
           (* a timer whose registration is gone (du_ident == DISPATCH_TIMER_IDENT_CANCELED) is never re-armed: event.c:825 *)
-          let a := if k_timer k then c_arm o && du_wlh s else true in
-          Ret (with_du s (du_wlh s) a (du_nd s) (if k_timer k then a else kreg s)) [ARearm] (i_retq i)
+          let a := c_arm o && du_wlh s in
+          Ret (if k_timer k then with_du s (du_wlh s) a (du_nd s) a a
+               else with_du s (du_wlh s) (du_armed s) (du_nd s) (kreg s) (kreg s)) [ARearm] (i_retq i)
       else Ret s [] (i_retq i)
   (* dispatch_source_cancel_and_wait with the drain lock taken (source.c:1062-1074) *)
   | OCD1 =>
@@ -322,12 +332,15 @@ Record gst := mkG {
   eh_count : Z;             (* event handler invocations *)
   late_starts : Z;          (* event handler invocations that started while CANCELED was set *)
   origin : option cctx;     (* where the cancel that set CANCELED came from *)
-  caw_early : bool          (* some cancel_and_wait returned while DELETED was not set *)
+  caw_early : bool;         (* some cancel_and_wait returned while DELETED was not set *)
+  (* the manager thread is inside _dispatch_event_merge_hangup: DU_STATE_NEEDS_DELETE is published, _dispatch_source_merge_evt
+     (which reads du_state again) has not run yet *)
+  m_hup : bool
 }.
 
 Definition init_state (k : kind) (ev ca rg : bool) : gst :=
-  mkG k (mkS f0 false false false false ev ca rg false false) false None QOther OIdle f0 RNone false
-      (fun _ => CIdle) (fun _ => false) ca 0 false 0 0 None false.
+  mkG k (mkS f0 false false false false ev ca rg false false false) false None QOther OIdle f0 RNone false
+      (fun _ => CIdle) (fun _ => false) ca 0 false 0 0 None false false.
 
 Inductive act :=
 | GActivate (o : orc)              (* dispatch_activate: _dispatch_source_activate (source.c:642) *)
@@ -335,7 +348,8 @@ Inductive act :=
 | GRelease                         (* last external reference dropped: DQF_RELEASED *)
 | GMergeData                       (* dispatch_source_merge_data *)
 | GEvent (stay_armed : bool)       (* the manager delivers an event for an armed registration *)
-| GHangup                          (* the kernel asks for a deferred delete (EPOLLHUP / EV_ONESHOT) *)
+| GHangup                          (* EPOLLHUP, first half (_dispatch_event_merge_hangup): NEEDS_DELETE and the EOF data published *)
+| GHangupMerge                     (* second half: _dispatch_source_merge_evt reads du_state again (source.c:1107) *)
 | GInvoke (q : queue)              (* the lane layer starts _dispatch_source_invoke on queue q (takes the drain lock) *)
 | GPhase (o : orc)                 (* the owner runs its next phase *)
 | GCawEnter                        (* cancel_and_wait: first rmw loop *)
@@ -359,25 +373,28 @@ Definition set_src (g : gst) (s1 : src) (a : list action) : gst :=
       (ch_set g) (ch_count g + count AChBegin a) (ch_disposed g || (0 <? count AChDispose a))
       (eh_count g + count AEhBegin a)
       (late_starts g + (if canceled (fl (g_s g)) then count AEhBegin a else 0))
-      (origin g) (caw_early g).
+      (origin g) (caw_early g) (m_hup g).
 Definition set_owner (g : gst) (ow : option Z) (q : queue) (pc : opc) (dqf : flags) (r : retq) (av : bool) : gst :=
   mkG (g_k g) (g_s g) (activated g) ow q pc dqf r av (cpc g) (slp g) (ch_set g) (ch_count g) (ch_disposed g) (eh_count g)
-      (late_starts g) (origin g) (caw_early g).
+      (late_starts g) (origin g) (caw_early g) (m_hup g).
 Definition set_cpc (g : gst) (t : Z) (p : cwpc) : gst :=
   mkG (g_k g) (g_s g) (activated g) (owner g) (o_q g) (o_pc g) (o_dqf g) (o_retq g) (o_avoid g) (upd (cpc g) t p) (slp g)
-      (ch_set g) (ch_count g) (ch_disposed g) (eh_count g) (late_starts g) (origin g) (caw_early g).
+      (ch_set g) (ch_count g) (ch_disposed g) (eh_count g) (late_starts g) (origin g) (caw_early g) (m_hup g).
 Definition set_slp (g : gst) (t : Z) (b : bool) : gst :=
   mkG (g_k g) (g_s g) (activated g) (owner g) (o_q g) (o_pc g) (o_dqf g) (o_retq g) (o_avoid g) (cpc g) (upd (slp g) t b)
-      (ch_set g) (ch_count g) (ch_disposed g) (eh_count g) (late_starts g) (origin g) (caw_early g).
+      (ch_set g) (ch_count g) (ch_disposed g) (eh_count g) (late_starts g) (origin g) (caw_early g) (m_hup g).
 Definition set_activated (g : gst) : gst :=
   mkG (g_k g) (g_s g) true (owner g) (o_q g) (o_pc g) (o_dqf g) (o_retq g) (o_avoid g) (cpc g) (slp g)
-      (ch_set g) (ch_count g) (ch_disposed g) (eh_count g) (late_starts g) (origin g) (caw_early g).
+      (ch_set g) (ch_count g) (ch_disposed g) (eh_count g) (late_starts g) (origin g) (caw_early g) (m_hup g).
 Definition set_origin (g : gst) (o : option cctx) : gst :=
   mkG (g_k g) (g_s g) (activated g) (owner g) (o_q g) (o_pc g) (o_dqf g) (o_retq g) (o_avoid g) (cpc g) (slp g)
-      (ch_set g) (ch_count g) (ch_disposed g) (eh_count g) (late_starts g) o (caw_early g).
+      (ch_set g) (ch_count g) (ch_disposed g) (eh_count g) (late_starts g) o (caw_early g) (m_hup g).
 Definition set_caw_early (g : gst) (b : bool) : gst :=
   mkG (g_k g) (g_s g) (activated g) (owner g) (o_q g) (o_pc g) (o_dqf g) (o_retq g) (o_avoid g) (cpc g) (slp g)
-      (ch_set g) (ch_count g) (ch_disposed g) (eh_count g) (late_starts g) (origin g) b.
+      (ch_set g) (ch_count g) (ch_disposed g) (eh_count g) (late_starts g) (origin g) b (m_hup g).
+Definition set_hup (g : gst) (b : bool) : gst :=
+  mkG (g_k g) (g_s g) (activated g) (owner g) (o_q g) (o_pc g) (o_dqf g) (o_retq g) (o_avoid g) (cpc g) (slp g)
+      (ch_set g) (ch_count g) (ch_disposed g) (eh_count g) (late_starts g) (origin g) (caw_early g) b.
 
 Definition orc_ok : orc := mkO false false true true false false false false.
 
@@ -387,6 +404,19 @@ Definition activate_src (k : kind) (o : orc) (s : src) : src * list action :=
   else if (k_direct k || k_timer k) && negb (installed s) && c_ovc o           (* :674-691; c_ovc stands for "pri != 0" here *)
   then install k o s
   else (s, []).
+
+(* the manager merges an event into the unote (event_epoll.c:_dispatch_event_merge_fd / _merge_signal, event.c:
+   _dispatch_timers_run).  EV_DISPATCH unotes (read / write): DU_STATE_ARMED cleared, the epoll entry stays disarmed until
+   resumed; signals: nothing changes; timers: the timer stays in the heap or is disarmed *)
+Definition event_src (k : kind) (stay : bool) (s : src) : src :=
+  if k_rearm k then with_du (with_pending s true) (du_wlh s) false (du_nd s) (kreg s) false
+  else if k_timer k then with_du (with_pending s true) (du_wlh s) stay (du_nd s) (kreg s) stay
+  else with_pending s true.
+
+(* the manager queue is served by one thread, which also delivers the events: it is neither invoking the source on the manager
+   queue nor in the middle of a hang-up delivery *)
+Definition mgr_free (g : gst) : bool :=
+  negb (m_hup g) && match owner g with Some _ => negb (queue_eqb (o_q g) QMgr) | None => true end.
 
 Definition is_owner (g : gst) (t : Z) : bool := match owner g with Some o => o =? t | None => false end.
 
@@ -412,20 +442,25 @@ Definition gstep (g : gst) (t : Z) (a : act) : option (gst * list action) :=
   | GRelease => if released (fl s) then None else Some (set_src g (with_fl s (set_released (fl s))) [], [])
   | GMergeData => if released (fl s) then None else Some (set_src g (with_pending s true) [], [])
   | GEvent stay =>
-      if kreg s && du_armed s then
-        let s1 := with_du (with_pending s true) (du_wlh s) (if k_rearm k then false else if k_timer k then stay else true)
-                          (du_nd s) (kreg s) in
+      if kreg s && karm s && mgr_free g then
+        let s1 := event_src k stay s in
         (* _dispatch_source_merge_evt (source.c:1108): an event for an unregistered non-timer unote finalizes *)
         if negb (registered s1) && negb (k_timer k) then let '(s2, acts) := finalize s1 in Some (set_src g s2 acts, acts)
         else Some (set_src g s1 [], [])
       else None
   | GHangup =>
-      if kreg s && registered s && negb (k_timer k)
-      then Some (set_src g (with_du (with_pending s true) (du_wlh s) false true (kreg s)) [], []) else None
+      if kreg s && registered s && negb (k_timer k) && negb (k_direct k) && mgr_free g
+      then Some (set_hup (set_src g (with_du (with_pending s true) (du_wlh s) false true (kreg s) false) []) true, []) else None
+  | GHangupMerge =>
+      if m_hup g then
+        (* source.c:1108: an event for an unregistered non-timer unote finalizes the source *)
+        if negb (registered s) && negb (k_timer k) then let '(s2, acts) := finalize s in Some (set_hup (set_src g s2 acts) false, acts)
+        else Some (set_hup g false, [])
+      else None
   | GInvoke q =>
       match owner g with
       | Some _ => None
-      | None => if activated g then Some (set_owner g (Some t) q OA1 f0 RNone false, []) else None
+      | None => if activated g && negb (queue_eqb q QMgr && m_hup g) then Some (set_owner g (Some t) q OA1 f0 RNone false, []) else None
       end
   | GPhase o =>
       if negb (is_owner g t) then None else
@@ -521,7 +556,8 @@ Definition Sinv (k : kind) (s : src) : Prop :=
   (du_armed s = true \/ du_nd s = true -> du_wlh s = true) /\
   (du_wlh s = true -> installed s = true) /\
   (du_nd s = true -> kreg s = true) /\
-  (k_timer k = true -> du_nd s = false).
+  (k_timer k = true -> du_nd s = false) /\
+  (karm s = true -> kreg s = true).
 
 Definition in_cd (p : opc) : bool := match p with OCD1 | OCD2 | OCD3 => true | _ => false end.
 Definition past_install (p : opc) : bool := match p with OA2 | OA3 | OA4 | OP1 | OLatch | OInEh | OP2 | OP3 => true | _ => false end.
